@@ -21,6 +21,8 @@ TRUSTED = {
 def _data(name):
     def f(ex, st, args, kwargs, node, spec):
         v = args[0]
+        if isinstance(v, CArr):
+            return v
         if isinstance(v, Opt):
             v = v.val if spec else ex.need_not_none(v, st, node, name)
         s = as_str(v)
